@@ -15,6 +15,7 @@ import KadDHT.Model.Sched
 import KadDHT.Proofs.Bits
 import KadDHT.Model.Schedule
 import KadDHT.Generated.Facts
+import KadDHT.Model.SchedT
 namespace KadDHT.C17
 open KadDHT KadDHT.Sched
 
@@ -533,11 +534,160 @@ theorem takeOver_mem (I cur : Nat) : ∀ (subs : List Nat) (own : Nat), takeOver
 theorem own_slot_legacy_later :
     timeBetween 3600 1803 2250 = 447 ∧ timeBetween 3600 1803 1800 = 3597 ∧ takeOver 3600 1803 1800 [2250] = 2250 := by decide
 
+/-! ### a kept key's timeline -/
+
+/-- every step the repaired scheduler can take on the region of a kept key keeps the key's next slot within one
+    interval plus the allowed delay of its last advertisement -/
+theorem timeline_step_inv (I D : Nat) (s s' : TL) (h : TLInv I D s) (st : TStep I D s s') : TLInv I D s' := by
+  obtain ⟨h1, h2, h3⟩ := h
+  cases st with
+  | wait t a b => exact ⟨by simp; omega, by simpa using b, by simpa using h3⟩
+  | fire u a b c => exact ⟨by simp, by simp, by simp; omega⟩
+  | early u a b => exact ⟨by simp, by simp, by simp; omega⟩
+  | subsume cur own told subs hm hd =>
+    have hle := (takeOver_not_later I cur own subs).2 told hm
+    refine ⟨by simpa using h1, by simp, ?_⟩
+    simp only
+    omega
+  | restart u a b =>
+    by_cases hr : recentRepaired I D s.now s.last u = true
+    · simp only [hr, if_true]
+      have : s.now + u ≤ s.last + I + D := by simpa [recentRepaired] using hr
+      exact ⟨h1, by simp, by simpa using this⟩
+    · simp only [hr]
+      exact ⟨by simp, by simp, by simp; omega⟩
+
+/-- … hence in every state the scheduler can reach -/
+theorem timeline_inv (I D : Nat) (s0 s : TL) (h0 : TLInv I D s0) (hr : TReach I D s0 s) : TLInv I D s := by
+  induction hr with
+  | refl => exact h0
+  | step _ st ih => exact timeline_step_inv I D _ _ ih st
+
+/-- C17's bound on the timeline: whenever the key is advertised again (at its slot, early, or caught up after a
+    restart) no more than one interval plus the allowed delay has passed since its last advertisement — for every
+    sequence of waits, slots, early reprovides, subsuming new prefixes and restarts -/
+theorem gap_bounded (I D : Nat) (s0 s s' : TL) (h0 : TLInv I D s0) (hr : TReach I D s0 s) (st : TStep I D s s')
+    (hadv : s'.last ≠ s.last) : s'.last ≤ s.last + I + D := by
+  obtain ⟨h1, h2, h3⟩ := timeline_inv I D s0 s h0 hr
+  cases st with
+  | wait t a b => simp at hadv
+  | fire u a b c => simp; omega
+  | early u a b => simp; omega
+  | subsume cur own told subs hm hd => simp at hadv
+  | restart u a b =>
+    by_cases hrc : recentRepaired I D s.now s.last u = true
+    · simp [hrc] at hadv
+    · simp only [hrc]; simp; omega
+
+/-- the legacy rule for a subsuming prefix (always its own slot) breaks the invariant: the instants of corpus case f25 -/
+theorem subsume_legacy_breaks_inv :
+    TLInv 3600 300 { now := 9005, last := 5850, due := 9005 + timeBetween 3600 1803 2250 } ∧
+    ¬ TLInv 3600 300 { now := 9005, last := 5850, due := 9005 + timeBetween 3600 1803 1800 } := by decide
+
+/-- the premises are met: a concrete run — the key waits for its slot, is advertised there, and a restart 100 s before
+    its next slot finds it recent enough to wait (the slot of the rebuilt region is 100 s away) -/
+example : TLInv 3600 300 { now := 0, last := 0, due := 225 } ∧
+    TReach 3600 300 { now := 0, last := 0, due := 225 } { now := 3725, last := 225, due := 3825 } := by
+  refine ⟨by decide, ?_⟩
+  have s1 : TReach 3600 300 { now := 0, last := 0, due := 225 } { now := 225, last := 0, due := 225 } :=
+    .step .refl (.wait _ 225 (by decide) (by decide))
+  have s2 : TReach 3600 300 { now := 0, last := 0, due := 225 } { now := 225, last := 225, due := 225 + 3600 } :=
+    .step s1 (.fire _ 3600 rfl (by decide) (by decide))
+  have s3 : TReach 3600 300 { now := 0, last := 0, due := 225 } { now := 3725, last := 225, due := 225 + 3600 } :=
+    .step s2 (.wait _ 3725 (by decide) (by decide))
+  have s4 := TReach.step s3 (TStep.restart (I := 3600) (D := 300) _ 100 (by decide) (by decide))
+  simpa [recentRepaired] using s4
+
 /-- the source still carries both repairs (regenerated from provider/provider.go on every run) -/
 theorem fact_slot_repairs :
     "t.Add(s.reprovideInterval+s.maxReprovideDelay).Before(now.Add(s.timeUntilScheduled(key)))" ∈ Facts.loadRecentConds ∧
     "!justReprovided" ∈ Facts.schedulePrefixConds ∧
     "s.timeUntil(t)<s.timeUntil(nextReprovideTime)" ∈ Facts.schedulePrefixConds ∧
     "reprovide&&err==nil&&len(coveredPrefix)>=len(prefix)" ∈ Facts.individualProvideConds := by decide
+
+end KadDHT.C17
+
+/-! ### the schedule with its slots, and the reprovide history (model `KadDHT.SchedT`, compared call by call with the
+    real functions by sibling harness C17u) -/
+namespace KadDHT.C17
+open KadDHT KadDHT.Sched KadDHT.Schedule KadDHT.SchedT
+
+theorem map_filter_fst (S : Entries) (p : Key) :
+    (S.filter fun e => !isPre p e.1).map (·.1) = (S.map (·.1)).filter fun q => !isPre p q := by
+  induction S with
+  | nil => rfl
+  | cons e rest ih =>
+    simp only [List.filter_cons, List.map_cons]
+    by_cases hp : isPre p e.1 = true
+    · simp [hp, ih]
+    · simp [hp, ih]
+
+/-- the timed schedule refines the set-level one: scheduling a prefix changes the set of scheduled prefixes exactly as
+    `Schedule.schedule` does, so `schedule_covers` and `schedule_prefixFree` speak about the real schedule's keys -/
+theorem schedulePrefix_keys (I D cur : Nat) (order : Key) (S : Entries) (p : Key) (just : Bool) :
+    (schedulePrefix I D cur order S p just).map (·.1) = Schedule.schedule (S.map (·.1)) p := by
+  unfold schedulePrefix Schedule.schedule unscheduleSubsumed
+  have hany : (S.map (·.1)).any (isPre · p) = S.any (fun e => isPre e.1 p) := by
+    simp [List.any_map, Function.comp_def]
+  rw [hany]
+  by_cases h : S.any (fun e => isPre e.1 p) = true
+  · simp [h]
+  · simp only [h, Bool.false_eq_true, if_false, List.map_append, List.map_cons, List.map_nil]
+    rw [map_filter_fst]
+
+/-- a prefix scheduled for new keys is due no later than any entry it replaces was -/
+theorem schedulePrefix_not_later (I D cur : Nat) (order : Key) (S : Entries) (p : Key)
+    (hnew : S.any (fun e => isPre e.1 p) = false) :
+    ∃ t, (p, t) ∈ schedulePrefix I D cur order S p false ∧
+      ∀ e ∈ S, isPre p e.1 = true → timeBetween I cur t ≤ timeBetween I cur e.2 := by
+  refine ⟨takeOver I cur (slotT I order p) ((S.filter fun e => isPre p e.1).map (·.2)), ?_, ?_⟩
+  · unfold schedulePrefix; simp [hnew]
+  · intro e he hp
+    apply (takeOver_not_later I cur (slotT I order p) _).2
+    exact List.mem_map.mpr ⟨e, List.mem_filter.mpr ⟨he, hp⟩, rfl⟩
+
+theorem addRecent_mem (R : List Key) (q x : Key) (h : x ∈ addRecent R q) : x ∈ R ∨ x = q := by
+  unfold addRecent at h
+  split at h
+  · exact .inl h
+  · rcases List.mem_append.mp h with h | h
+    · exact .inl (List.mem_filter.mp h).1
+    · exact .inr (by simpa using h)
+
+theorem loadRecent_fold (I D now cur : Nat) (S : Entries) (es : List (Nat × Key)) :
+    ∀ (R : List Key) (x : Key),
+      x ∈ es.foldl (fun R e => if recentRepaired I D now e.1 (untilScheduled I cur S e.2) then addRecent R e.2 else R) R →
+      x ∈ R ∨ ∃ ts, (ts, x) ∈ es ∧ recentRepaired I D now ts (untilScheduled I cur S x) = true := by
+  induction es with
+  | nil => intro R x h; exact .inl h
+  | cons e rest ih =>
+    intro R x h
+    simp only [List.foldl_cons] at h
+    rcases ih _ x h with h1 | ⟨ts, hm, hr⟩
+    · by_cases hc : recentRepaired I D now e.1 (untilScheduled I cur S e.2) = true
+      · simp only [hc, if_true] at h1
+        rcases addRecent_mem _ _ _ h1 with h2 | h2
+        · exact .inl h2
+        · subst h2; exact .inr ⟨e.1, List.mem_cons_self, hc⟩
+      · simp only [hc] at h1; exact .inl h1
+    · exact .inr ⟨ts, List.mem_cons_of_mem _ hm, hr⟩
+
+/-- F24 on the function itself: every region `loadRecentlyReprovidedRegions` reports as recently reprovided has a
+    history entry whose instant plus interval plus max delay is not before the instant at which the scheduled regions
+    overlapping it are due — the keys of a region that is *not* handed to the catch-up queue can wait for their slot -/
+theorem loadRecent_sound (I D now cur : Nat) (S : Entries) (h : Hist) (q : Key)
+    (hq : q ∈ (loadRecent I D now cur S h).2) :
+    ∃ ts, (ts, q) ∈ (gc I now h).entries ∧ now + untilScheduled I cur S q ≤ ts + I + D := by
+  unfold loadRecent at hq
+  rcases loadRecent_fold I D now cur S _ [] q hq with h0 | ⟨ts, hm, hr⟩
+  · cases h0
+  · exact ⟨ts, hm, by simpa [recentRepaired] using hr⟩
+
+/-- the premises are met (and the repaired rule at work): region 0001 reprovided at 7425 s; at 10926 s the rebuilt
+    schedule holds 000 at slot 0 (offset in the cycle 126 s): the entry is not recent; with the finer region still
+    scheduled at its own slot 225 it is -/
+example : (loadRecent 3600 300 10926 126 [([false, false, false], 0)] { entries := [(7425, [false, false, false, true])] }).2 = [] ∧
+    (loadRecent 3600 300 10926 126 [([false, false, false, true], 225)] { entries := [(7425, [false, false, false, true])] }).2
+      = [[false, false, false, true]] := by decide
 
 end KadDHT.C17
